@@ -38,7 +38,10 @@ def obligations(tier, H):
                 add("path: str, query: str", "H.h_url({0!r}, path, query)".format(shape), pre, shape, timeout=240 if thorough else 120)
     for scheme, expect in (("http", "accept"), ("https", "accept"), ("unix+http", "accept"), ("ftp", "reject"), ("", "reject"),
                            ("file", "reject"), ("unix+ftp", "reject"), ("unix", "reject"), ("ws", "reject"), ("httpx", "reject"),
-                           ("unix+https", "reject")):
+                           ("unix+https", "reject"),
+                           # compound schemes: only the exact prefix "unix+" in front of http is a transport prefix
+                           ("git+http", "reject"), ("svn+https", "reject"), ("unix+unix+http", "reject"), ("http+unix", "reject"),
+                           ("+http", "reject"), ("unix+", "reject")):
         shape = {"part": "scheme", "scheme": scheme, "expect": expect}
         add("path: str", "H.h_scheme({0!r}, path)".format(shape), ["len(path) <= 2", SAFE_PATH, "path == '' or path[0] == '/'"], shape,
             codes=(100,) if expect == "accept" else (101,))
